@@ -76,7 +76,13 @@ def impl(case):
     rng.shuffle(with_c)
     rng.shuffle(without)
     templates = with_c[:20] + without[:5]
-    ig = pg.instantiate_constants(constants)
+    if case.get("two_step") and len(constants) >= 2:
+        # one call per type: the result must be that of a single call with the whole table
+        ig = pg
+        for t in constants:
+            ig = ig.instantiate_constants({t: constants[t]})
+    else:
+        ig = pg.instantiate_constants(constants)
     # program-side instantiation
     tobs = []
     all_insts = []
